@@ -31,6 +31,8 @@ def worker(k, q, lock):
     if copy.exists():
         shutil.rmtree(copy)
     sh("rsync", "-a", "--exclude", ".git", "--exclude", "replays", "--exclude", "seeded", str(V) + "/", str(copy) + "/")
+    # tracked files come from the committed HEAD (workers may be editing the live tree); build output (.vo) from the live tree
+    subprocess.run(f"git -C {V} archive HEAD | tar -x -C {copy} --exclude=seeded --exclude=evidence", shell=True)
     while True:
         try:
             name = q.get_nowait()
